@@ -33,6 +33,20 @@ CHECKS = {
   text='Seeded search (not exhaustive) over write histories: every cell of format x destination-state x overwrite x fault-kind is visited several times per quick run and thousands of times per thorough run, with list length, failing position, API, format resolution, options, path style, warnings mode and locale encoding drawn from the seed. Each failed write is checked for a byte-identical disk, each refused write for OSError, each successful write by an 11-15 way read-back battery (format given / inferred from extension / from content signature of renamed and gzip copies) against parse(serialize(...)) computed independently of the file. Failures are minimised and replay exactly in a fresh interpreter. Sampling gives evidence, not proof.',
   design_ref='DESIGN.md sections 2 (R1), 3.2',
   note='Trusted: the harness snapshot/compare code, numpy/astropy/gzip and the tmpfs file system. Failures after the file has been opened that are caused by the environment (ENOSPC, EIO, signals) are outside the property as read in R1. Known finding F14-3 (UnicodeEncodeError truncates) is reported as KNOWN-FINDING, matched per failing step.'),
+ 'C16': dict(
+  engine='val',
+  technique='deterministic simulation: seeded histories (<=30 ops) of copy / copy-with-changes / deepcopy / mutate-the-copy (assignment, dict edits, in-place edits of coordinates, arrays, Quantities, nested lists) / compound building / Regions slicing, copying and list edits / comparisons, executed against a reference model (token vector per object, alias graph, list membership); independence, copy-law and equality invariants checked after every step',
+  category='exploration',
+  text='Seeded search over operation histories on a shared pool of slots covering every region class (pixel, sky, compound, regular polygon) and Regions lists. After every step the canonical fingerprint of every slot that is neither the target nor a by-design alias must be unchanged (V1); after every copy the class, every unnamed field and the == verdict must follow the copy law (V2); == / != of the touched slot against same-class partners must be reflexive, symmetric, consistent, never raise and agree with the token model (V3); list derivations and edits must match the list model (V4). Violations are minimised by dropping operations and replay exactly in a fresh interpreter. Sampling gives evidence, not proof.',
+  design_ref='DESIGN.md section 3.3',
+  note='Trusted: the reference model and fingerprint code, numpy, astropy. Equality under unit conversion is only exercised where astropy itself reports equality in both directions (one alternative unit per menu value). Compounds whose shared meta was edited in place are excluded from equality *prediction* (not from the independence check).'),
+ 'C17': dict(
+  engine='val',
+  technique='deterministic simulation with fault injection: seeded histories (<=20 ops) interleaving valid and invalid constructions, assignments, deletions, RegionMeta/RegionVisual mutators (every dict entry point, valid keys before the invalid one) and Regions mutators on shared objects; the injected fault is an out-of-domain value from a per-kind catalogue; rejection class, atomic rejection (fingerprint of every live object unchanged), read-back and a standing domain invariant are checked after every step',
+  category='exploration',
+  text='Seeded search over histories: each op carries at most one invalid value (sizes 0/negative/NaN/inf/str/None/list/0-d and 1-d arrays/Quantity, wrong-kind or array coordinates, non-angular or bare angles, annulus ordering, metadata keys outside the vocabulary through 11 dict entry points, non-Region list members, bad compound operands, bad bounding-box/mask arguments). A1: the op raises ValueError/TypeError/KeyError; A2: after a rejected op every live object has the same fingerprint; A3: ops carrying only valid values succeed and read back the stored object; A4: after every step every live object satisfies an independently coded domain validator. Sampling gives evidence, not proof.',
+  design_ref='DESIGN.md section 3.3',
+  note='Trusted: the invalid-value catalogue and the independent domain validator in the harness. NaN/inf rotation angles and arbitrary text values are treated as inside the domain. Known finding F17-2 (annulus ordering on assignment) is reported as KNOWN-FINDING, matched per failing step; objects tainted by it are exempt from A4 for the affected fields only.'),
 }
 
 
@@ -64,6 +78,8 @@ def main():
         'engines': [
             {'name': 'fsx', 'path': 'sim/engines/fsx.py', 'serves_properties': ['C14'],
              'kind_free_text': 'file-system fault simulator: seeded write/read histories on a private disk, snapshots + reference model'},
+            {'name': 'val', 'path': 'sim/engines/val.py', 'serves_properties': ['C16', 'C17'],
+             'kind_free_text': 'value-semantics state machine: seeded operation histories over slots with a reference model'},
         ],
         'checks': checks,
         'notes': 'Technique: deterministic simulation with fault injection only. One integer (VERIF_SEED) decides every run; each run executes in its own fork of a pristine process image; determinism is self-tested on every invocation (same seeds twice, 16 vs 1 workers, fresh interpreter with another PYTHONHASHSEED). Known findings: known_findings.json.',
